@@ -15,10 +15,20 @@ func c29SrRun(line string) string {
 	if len(f) != 5 || f[0] != "sr" {
 		return "bad-op"
 	}
+	a := "ok"
 	if err := VerifySignature(vhUnhex(f[1]), vhUnhex(f[3]), vhUnhex(f[2])); err != nil {
-		return "fail"
+		a = "fail"
 	}
-	return "ok"
+	b := "fail"
+	if pk, err := NewPublicKey(vhUnhex(f[1])); err == nil {
+		if ok, err := pk.Verify(vhUnhex(f[2]), vhUnhex(f[3])); err == nil && ok {
+			b = "ok"
+		}
+	}
+	if a != b {
+		return "paths-disagree fn=" + a + " method=" + b
+	}
+	return a
 }
 
 func c29SrGen(r *vhRng) string {
